@@ -22,13 +22,16 @@ import (
 	interp "vpengine/gosym"
 )
 
-const repoDir = "/repo"
+var repoDir = "/repo" // VP_REPO_DIR overrides it for development runs against a scratch worktree (never used by registered commands)
 
 var verifDir = "/verif"
 
 func main() {
 	if v := os.Getenv("VP_VERIF_DIR"); v != "" {
 		verifDir = v
+	}
+	if v := os.Getenv("VP_REPO_DIR"); v != "" {
+		repoDir = v
 	}
 	if os.Getenv("VP_SLOW") != "" {
 		interp.SlowLog = os.Stderr
@@ -283,6 +286,13 @@ func runHarness(p *interp.Program, h HarnessRun, tier string, workers int, out *
 	if cfg.SampleEvery == 0 {
 		cfg.SampleEvery = 97
 	}
+	if cfg.Timeout == 0 {
+		// wall-clock budget per harness run: exceeding it truncates the run (reported as INCONCLUSIVE, never as success)
+		cfg.Timeout = 15 * time.Minute
+		if tier == "thorough" {
+			cfg.Timeout = 3 * time.Hour
+		}
+	}
 	if h.NoReinit {
 		cfg.ReinitPkgs = nil
 	}
@@ -341,6 +351,11 @@ func runHarness(p *interp.Program, h HarnessRun, tier string, workers int, out *
 				n++
 				c := caseFromModel(fmt.Sprintf("%s#v%d", runTag, n), h.Harness, params, vars, a.Model)
 				out.violations = append(out.violations, violation{Harness: h.Harness, Label: a.Label, Case: c, Kind: "assert"})
+				for _, em := range a.Extra {
+					n++
+					ce := caseFromModel(fmt.Sprintf("%s#v%d", runTag, n), h.Harness, params, vars, em)
+					out.violations = append(out.violations, violation{Harness: h.Harness, Label: a.Label, Case: ce, Kind: "assert"})
+				}
 			}
 		}
 		kind := rec.Outcome
@@ -434,6 +449,9 @@ func cmdCheck(args []string) int {
 	}
 	interp.SolverKind = *solver
 	interp.QueryLogDir = *qlog
+	if *tier == "quick" {
+		interp.SolverTimeoutMs = 15000
+	}
 	seed, _ := strconv.Atoi(os.Getenv("VERIF_SEED"))
 	var chk *Check
 	for _, c := range allChecks() {
